@@ -149,7 +149,11 @@ def main(argv=None):
         s['index'] = i
         s.setdefault('tier', tier)
         s.setdefault('seed', seed)
-    timeout = getattr(mod, 'WATCHDOG', {}).get(tier, 600 if tier == 'quick' else 3600)
+    floors0 = getattr(mod, 'FLOORS', {}).get(tier, {})
+    for s in specs:
+        # a shard's share of each floor (x2.5: some counters are produced by a subset of the shards)
+        s.setdefault('min', {k: -(-int(v * 2.5) // len(specs)) for k, v in floors0.items()})
+    timeout = getattr(mod, 'WATCHDOG', {}).get(tier, 900 if tier == 'quick' else 5400)
     results, problems = [], []
     with tempfile.TemporaryDirectory(prefix=f'vf-{pid}-') as td:
         with concurrent.futures.ThreadPoolExecutor(max_workers=args.jobs) as ex:
